@@ -21,7 +21,7 @@ PREDS = ["all", "parity", "none", "one", "card", "reads-model"]
 
 def FLOORS(tier):
     q = tier == "quick"
-    f = {"ties>=2-minimisers": 300 if q else 10000, "constant-model": 40, "empty-model": 10, "nothing-valid": 100,
+    f = {"ties>=2-minimisers": 300 if q else 10000, "constant-model": 40, "empty-model": 10, "nothing-valid": 100, "nothing-valid-answers-checked": 50, "infinite-constant": 40,
          "method-calls": 400 if q else 10000, "valid-predicate-calls": 10000 if q else 5 * 10 ** 5, "with-offset": 300,
          "method:PCBO-with-constraints": 20, "stale-model": 50, "huge-offset": 100, "valid-argument-omitted": 100,
          "free-function-on-constrained-model": 15, "typed-coefficients": 100, "second-call-after-result-edited": 300,
@@ -42,7 +42,36 @@ def norm(sols):
     return sorted(sorted(d.items(), key=repr) for d in sols)
 
 
+def infinite_wall(ctx, rng):
+    """an infinite coefficient used as a hard wall: when every accepted assignment hits it the minimum is +inf, which is a
+    value like any other (not "nothing valid")"""
+    kind = rng.choice(["bool", "spin"])
+    inf = float("inf")
+    labs = gen.labels(rng, rng.randint(1, 3), matrix=rng.random() < 0.5)
+    D = {tuple(gen.sort_labels(k)): v for k, v in gen.rand_terms(rng, labs, 2, lo=1, hi=3).items() if k}
+    D[()] = inf
+    alls = rng.random() < 0.5
+    fname = FUNCS[(kind, rng.random() < 0.5)]
+    w = {"function": fname, "terms": dict(D), "all_solutions": alls, "class": "infinite constant"}
+    tv = sorted({x for k in D for x in k}, key=repr)
+    ok, res = ctx.call(fname, getattr(L.utils, fname), D, alls, _w=w)
+    if not ok:
+        return
+    ctx.cat("infinite-constant")
+    obj, sol = res
+    if obj != inf:
+        ctx.violation("wrong-objective:infinite", "every assignment has value inf, reported objective %r" % (obj,), w)
+        return
+    sols = sol if alls else [sol]
+    vals = (0, 1) if kind == "bool" else (1, -1)
+    if not isinstance(sols, list) or any(not isinstance(s_, dict) or set(s_) != set(tv) or any(v not in vals for v in s_.values()) for s_ in sols) \
+            or (alls and len(sols) != 2 ** len(tv)):
+        ctx.violation("solution-malformed:infinite", "reported %r for variables %r" % (sol, tv), w)
+
+
 def case(ctx, rng, idx):
+    if rng.random() < 0.01:
+        return infinite_wall(ctx, rng)
     kind = rng.choice(["bool", "spin"])
     vals = (0, 1) if kind == "bool" else (1, -1)
     tn = rng.choice(["dict"] + L_TYPES[kind])
@@ -214,6 +243,15 @@ def case(ctx, rng, idx):
         if exp_obj is None:
             if obj is not None:
                 ctx.violation("objective-not-None-when-nothing-valid", "objective %r" % (obj,), w)
+                return
+            # documented answer when nothing is valid: (None, {}) / (None, [{}]); the caller owns it (and may write into it)
+            if sol != ([{}] if alls else {}):
+                ctx.violation("solution-not-empty-when-nothing-valid", "nothing is valid, yet the reported solution is %r" % (sol,), w)
+                return
+            ctx.count("nothing-valid-answers-checked")
+            (sol[0] if alls else sol)[("__scribble__",)] = 1
+            if alls:
+                sol.append("__scribble__")
             return
         if obj is None or frac(obj) != exp_obj:
             ctx.violation("wrong-objective" + (":constant" if const else ""), "objective %r, true minimum over valid %r" % (obj, exp_obj), w)
